@@ -169,19 +169,26 @@ def key_der_lines(ctx, rng, quick):
     gen = open(os.path.join(os.path.dirname(os.path.abspath(__file__)), "..", "lean", "Bec2Verif", "Gen", "Curves.lean")).read()
     recs = {m.group(1): (m.group(2).replace(" ", ""), int(m.group(3)))
             for m in re.finditer(r'name := "(\w+)".*?oid := \[([^\]]*)\], baselen := (\d+)', gen)}
-    enc = []
+    enc, enc_bad = [], []
     for name in (NAMED if not quick else rng.sample(NAMED, 6) + ["NIST256p"]):
         c = refec_curve(ctx, name)
         oid, bl = recs[name]
         ln = (c["p"].bit_length() + 7) // 8
-        for d in [1, c["n"] - 1, rng.randrange(1, c["n"]), rng.randrange(1, 1 << max(8, c["n"].bit_length() - 12))]:
-            q = refec.mul(c, d, (c["gx"], c["gy"]))
+        # scalars at and beyond the ends of the valid range 1..n-1 too (the embedded public key is not looked at by the decoder)
+        for d in [1, c["n"] - 1, rng.randrange(1, c["n"]), rng.randrange(1, 1 << max(8, c["n"].bit_length() - 12)),
+                  0, c["n"], c["n"] + 1, min(256 ** bl - 1, 2 * c["n"])]:
+            q = refec.mul(c, d if 0 < d < c["n"] else 1, (c["gx"], c["gy"]))
             pub = b"\x04" + q[0].to_bytes(ln, "big") + q[1].to_bytes(ln, "big")
             for fmt in ("ssleay", "pkcs8"):
-                enc.append(f"key.toder {fmt} {oid} {hx(d.to_bytes(bl, 'big'))} {hx(pub)}")
+                (enc if 0 < d < c["n"] else enc_bad).append(f"key.toder {fmt} {oid} {hx(d.to_bytes(bl, 'big'))} {hx(pub)}")
     res = ctx.correspond(enc, "key-der-encode")
+    # encodings of out-of-range scalars cannot be produced through the library (it refuses to build such a key): the model
+    # writes them, the decoders of model and code must both refuse them
+    from core import model_eval
+    enc_bad = list(dict.fromkeys(enc_bad))
+    res_bad = model_eval(enc_bad)
     dec = []
-    for line, r in zip(list(dict.fromkeys(enc)), res):
+    for line, r in list(zip(list(dict.fromkeys(enc)), res)) + list(zip(enc_bad, res_bad)):
         if not r.startswith("ok "):
             continue
         data = bytes.fromhex(r[3:])
